@@ -307,7 +307,12 @@ class _Tree(Contract):
         planner.__dict__['_pyvc_state'] = st
 
         def hook(index, coords, num, objects):
-            items = choose_subset(num)
+            if num > 1 and getattr(self, 'full_knn', False):
+                # restricted instance of A6: the k nearest are ALL inserted nodes (at most k), in insertion order; since the
+                # distances are uninterpreted symbols, fixing the order loses no generality for full neighbour lists
+                items = [pp.index.Item(n) if hasattr(pp.index, 'Item') else n for n in st['inserted'][:num]]
+            else:
+                items = choose_subset(num)
             if num > 1:
                 st['examined'][len(st['inserted'])] = [it.object for it in items]
             return items
@@ -344,4 +349,4 @@ class _Tree(Contract):
 
 register(type('Tree_budget1', (_Tree,), dict(budget=1, knn=2)))
 register(type('Tree_budget2', (_Tree,), dict(budget=2, knn=2)))
-register(type('Tree_budget3', (_Tree,), dict(budget=3, knn=3, tier='thorough', max_paths=20000)))
+register(type('Tree_budget3_full_neighbour_lists', (_Tree,), dict(budget=3, knn=3, full_knn=True, max_paths=20000)))
